@@ -70,6 +70,39 @@ def one_connection(acc, sc, rng, case, wit, round_no):
         big = DiameterMessage.load(R.encode(N.app_request(778, size=70000, host=N.LOCAL[0], realm=N.LOCAL[1], dest_realm=N.PEER[1])))[0]
         sc.node.send_messages([big] * case["backlog"])
         acc.counters["backlog_cases"] += 1
+    if case.get("app_base_answers"):
+        # the application hands base answers of its own making to the public send calls (a generic message decoded from bytes
+        # or built from a header, the typed classes): they answer no received request, so none of them may reach the socket -
+        # refused with a library error, or dropped
+        def forger():
+            from bromelia.base import DiameterHeader, DiameterAnswer
+            from bromelia.avps import ResultCodeAVP, OriginHostAVP, OriginRealmAVP
+            import bromelia.exceptions as E
+            for k in range(case["app_base_answers"]):
+                h, e = ids(rng, used)
+                lm = (N.dwa, N.dpa, N.dwa, lambda **kw: N.cea(apps=sc.apps, **kw))[k % 4](host=N.LOCAL[0], realm=N.LOCAL[1], hbh=h, e2e=e)
+                form = ("loaded", "header-built", "answer-class", "loaded")[(k // 4 + k) % 4]
+                if form == "loaded":
+                    obj = DiameterMessage.load(R.encode(lm))[0]
+                else:
+                    hdr = DiameterHeader(command_code=lm.code, application_id=0, hop_by_hop=h, end_to_end=e)
+                    avps = [ResultCodeAVP(2001), OriginHostAVP(N.LOCAL[0]), OriginRealmAVP(N.LOCAL[1])]
+                    obj = (DiameterMessage if form == "header-built" else DiameterAnswer)(header=hdr, avps=avps)
+                call = ("send_message", "send_messages")[(k // 2) % 2]
+                try:
+                    if call == "send_message":
+                        sc.node.send_message(obj)
+                    else:
+                        sc.node.send_messages([obj])
+                    acc.observe("application-base-answer-accepted-by-%s:%s" % (call, form))
+                except BaseException as ex:
+                    if type(ex).__module__ == E.__name__:
+                        acc.counters["application_base_answers_refused"] += 1
+                    else:
+                        acc.observe("application-base-answer-%s-raises-%s" % (call, type(ex).__name__))
+                acc.counters["application_base_answers_submitted"] += 1
+                sc.sched.run_until(lambda: False, rng.choice([0.0, 0.0005, 0.003]), "forger-gap")
+        sc.sched.spawn("forger%d" % round_no, forger)
     n = case["n"]
     burst = b""
     for k in range(n):
@@ -100,7 +133,7 @@ def one_connection(acc, sc, rng, case, wit, round_no):
     sc.sched.run_until(lambda: not sc.node_sock.rx, 5, "burst-read")
     sc.inject(R.encode(N.dpr(hbh=h, e2e=e)))
     requests.append(("DPA", h, e))
-    closed = sc.sched.run_until(lambda: sc.state() == "Closed" and not [t for t in sc.sched.live_tasks() if "flooder" not in t.name and t.name != "starter"], 40, "closed")
+    closed = sc.sched.run_until(lambda: sc.state() == "Closed" and not [t for t in sc.sched.live_tasks() if "flooder" not in t.name and "forger" not in t.name and t.name != "starter"], 40, "closed")
     sc._pull()
     # ---- matcher
     frames, residue = R.split_messages(bytes(sc.emitted_buf))
@@ -376,7 +409,8 @@ def main(tier, seed):
     for i in range(200 if q else 30000):
         cases.append({"seed": seed * 1009 + i, "role": rng.choice(["client", "server"]), "n": rng.choice([1, 2, 3, 6, 12]),
                       "back_to_back": rng.random() < 0.5, "strategy": rng.choice(["rr", "rr", "rw"]), "p": rng.choice([0.02, 0.1]),
-                      "rounds": rng.choice([1, 1, 2, 3]), "flood": rng.choice([0, 0, 0, 6]), "transport": rng.choice(["TCP", "TCP", "TCP", "SCTP"])})
+                      "rounds": rng.choice([1, 1, 2, 3]), "flood": rng.choice([0, 0, 0, 6]), "transport": rng.choice(["TCP", "TCP", "TCP", "SCTP"]),
+                      "app_base_answers": (0, 0, 0, 4, 8)[i % 5]})
     for i in range(24 if q else 2000):
         cases.append({"seed": seed * 1013 + i, "role": rng.choice(["client", "server"]), "n": rng.choice([2, 3, 5]), "back_to_back": True,
                       "strategy": rng.choice(["rr", "rw"]), "p": 0.05, "rounds": 1, "flood": 0, "backlog": rng.choice([12, 24])})
@@ -400,7 +434,7 @@ def main(tier, seed):
                           ["the peer is scripted by the driver task; answers are read from the bytes the node wrote to the substituted socket",
                            "identifier pairs are sampled (boundary + random), not enumerated over 2^64",
                            "emission order is decided on scheduler steps: the send() that carried the answer's last byte vs the step at which the state machine took the next inbound message"],
-                          t0, require_counters=("answers_seen", "connections", "reconnects", "ordering_checked", "backlog_cases", "real_loopback_ok", "stray_base_answers_injected", "twin_node_executions", "twin_node_parked", "backlog_race_executions", "backlog_race_parked"))
+                          t0, require_counters=("answers_seen", "connections", "reconnects", "ordering_checked", "backlog_cases", "real_loopback_ok", "stray_base_answers_injected", "application_base_answers_submitted", "twin_node_executions", "twin_node_parked", "backlog_race_executions", "backlog_race_parked"))
 
 
 def replay(w):
